@@ -135,6 +135,26 @@ pl = contract(SCREEN + ".plates", params=[("self", T_scr)])
 pl.requires(lambda a: screen_shape_wf(a.self))
 
 
+is_plate_view = z3.Function("is_single_plate_view", Ref_ := __import__("pyvc.values", fromlist=["Ref"]).Ref, z3.BoolSort())
+
+
+def plate_view_definition():
+    """hidden definition of the opaque predicate (revealed only where it is established or consumed)"""
+    t = z3.Const("t!ipv", Ref_)
+    p = AObj("Plate", t)
+    return z3.ForAll([t], is_plate_view(t) == single_plate_view(G(p, "screen"), p), patterns=[is_plate_view(t)])
+
+
+def single_plate_view(scr, p):
+    """exactly the shape of the precondition of the Plate.plate_id summary (contracts/c06.one_plate)"""
+    n = nrows(scr)
+    sel, pids = G(p, "selection_vector"), G(G(p, "screen"), "_plate_ids")
+    r, r2 = z3.Int("r!op"), z3.Int("r2!op")
+    return z3.And(sel.shape[0] == nrows(G(p, "screen")), z3.Exists([r], z3.And(r >= 0, r < nrows(G(p, "screen")), z3.Select(sel.data, r))),
+                  z3.ForAll([r, r2], z3.Implies(z3.And(r >= 0, r < nrows(G(p, "screen")), r2 >= 0, r2 < nrows(G(p, "screen")), z3.Select(sel.data, r), z3.Select(sel.data, r2)),
+                                                z3.Select(pids.data, r) == z3.Select(pids.data, r2))))
+
+
 def plates_post(scr, plates_seq):
     k, k2, r, r2 = z3.Int("k!pl"), z3.Int("k2!pl"), z3.Int("r!pl"), z3.Int("r2!pl")
     L, n = plates_seq.length, nrows(scr)
@@ -147,12 +167,15 @@ def plates_post(scr, plates_seq):
             same_obj(G(AObj("Plate", z3.Select(plates_seq.cols, k)), "screen"), scr),
             G(AObj("Plate", z3.Select(plates_seq.cols, k)), "selection_vector").shape[0] == n)), patterns=[z3.Select(plates_seq.cols, k)])),
         ("non_empty", z3.ForAll([k], z3.Implies(ink(k), z3.Exists([r], z3.And(inr(r), sv(k, r)))), patterns=[z3.Select(plates_seq.cols, k)])),
+        ("single_plate_views", z3.ForAll([k], z3.Implies(ink(k), is_plate_view(z3.Select(plates_seq.cols, k))),
+                                         patterns=[z3.Select(plates_seq.cols, k)])),
         ("one_plate_each", z3.ForAll([k, r, r2], z3.Implies(z3.And(ink(k), inr(r), inr(r2), sv(k, r)), sv(k, r2) == (pid(r) == pid(r2))))),
         ("covers_rows", z3.ForAll([r], z3.Implies(inr(r), z3.Exists([k], z3.And(ink(k), sv(k, r)))), patterns=[pid(r)])),
         ("ascending_ids", z3.ForAll([k, k2, r, r2], z3.Implies(z3.And(ink(k), ink(k2), k < k2, inr(r), inr(r2), sv(k, r), sv(k2, r2)), pid(r) < pid(r2)))),
     ]
 
 
+pl.use(lambda a: [plate_view_definition()])
 pl.ensures("plates", lambda a, ret, st: plates_post(a.self, ret.seq))
 
 # ---- Plate.plate_id / plate_name
